@@ -18,15 +18,15 @@ LEVEL_TEXT = ('every sequence of argument classes (trashable file/dir/symlink, n
               'stderr, and each argument must end exactly as when it is run alone on the same initial world')
 LEVEL_NOTE = 'trusted: snapshot classifier; end-of-input at an -i prompt is excluded (covered by C01); permission failures are not modelled (root)'
 RULE = ('sequences of length 1..3 (thorough 1..4) over {file, dir, link, dangling link, missing, dot, dotdot, nonutf8, untrashable, dup} (dup not first) x mode {-, -f, -i all y, '
-        '-i all n, -i alternating, -v}; non-trivial = at least two arguments with different outcomes; distinct = (mode, multiset of classes, exit, outcome vector)')
+        '-i all n, -i alternating, -v, HOME with regex metacharacters}; non-trivial = at least two arguments with different outcomes; distinct = (mode, multiset of classes, exit, outcome vector)')
 CLASSES = ['file', 'dir', 'link', 'dangling', 'missing', 'dot', 'dotdot', 'nonutf8', 'untrashable', 'dup']
-MODES = ['-', '-f', '-iy', '-in', '-ialt', '-v']
+MODES = ['-', '-f', '-iy', '-in', '-ialt', '-v', 'odd-home']
 B = '/home/u/w'
 PROMPT = re.compile(r"trash-put: trash .*? '(.*?)'\? ", re.S)
 
 
 def dimensions(tier):
-    return {'classes': 10, 'max_len': 4 if tier == 'thorough' else 3, 'modes': 6}
+    return {'classes': 10, 'max_len': 4 if tier == 'thorough' else 3, 'modes': 7}
 
 
 def cases(tier):
@@ -76,11 +76,15 @@ def make_world(seq):
 
 
 def run_list(W, argv_args, mode, replies):
-    argv = ['trash-put'] + {'-': [], '-f': ['-f'], '-v': ['-v']}.get(mode, ['-i']) + [a for a, _ in argv_args]
+    argv = ['trash-put'] + {'-': [], '-f': ['-f'], '-v': ['-v'], 'odd-home': []}.get(mode, ['-i']) + [a for a, _ in argv_args]
     stdin = ''.join(r + '\n' for r in replies) if mode.startswith('-i') else None
+    env = None
+    if mode == 'odd-home':
+        W.dir('/home/o(h +[x')
+        env = {'HOME': '/home/o(h +[x'}          # a home directory whose name is not a valid regular expression
     with cell.Sandbox(W.spec()) as sb:
         before = sb.snapshot()
-        r = sb.run(argv, stdin=stdin, cwd=B, now='2024-04-04T04:04:04')
+        r = sb.run(argv, stdin=stdin, cwd=B, now='2024-04-04T04:04:04', env=env)
         after = sb.snapshot()
     return before, r, after
 
